@@ -41,7 +41,11 @@ InDomBin(op, a, b) ==
   /\ (op \in {"div", "rem"} => FLt(Small, FAbs(b.re)))
   \* the truncated quotient is locally constant except where a/b crosses an integer; an EXACT integer quotient is
   \* still unambiguous (trunc is exact), quotients within 1e-6 of an integer are not judged
-  /\ (op = "rem" => LET f == Frac(FDiv(a.re, b.re)) IN FEq(f, FZ) \/ (FLt(Eps6, f) /\ FLt(f, FSub(FOne, Eps6))))
+  /\ (op = "rem" => LET q == FDiv(a.re, b.re) f == Frac(q) IN
+                       (FEq(f, FZ) /\ FEq(FFma(q, b.re, FNeg(a.re)), FZ))   \* an integer quotient counts only if q*b = a EXACTLY (fused, one rounding):
+                                                                         \* 1.0/0.1 rounds onto 10 but the true quotient is below it, and there the float
+                                                                         \* remainder (0.0999..) and a - trunc(q)*b (0) are both right answers
+                       \/ (FLt(Eps6, f) /\ FLt(f, FSub(FOne, Eps6))))
 RuleBin(op, A, B, NS) == CASE op = "add" -> Add(A, B, NS) [] op = "sub" -> Sub(A, B, NS) [] op = "mul" -> Mul(A, B, NS)
                            [] op = "div" -> Div(A, B, NS) [] op = "rem" -> Rem(A, B, NS)
 RuleUn(op, A, p, NS) == CASE op = "neg" -> Neg(A, NS) [] op = "pow" -> Pow(A, p, NS) [] op = "exp" -> Exp(A, NS)
@@ -133,6 +137,9 @@ SameStored(x, y) == /\ x.k = y.k /\ x.re = y.re
 Lowered(x, y) == y.k = "D1" /\ y.re = x.re /\ y.vars = x.vars /\ y.d = x.d          \* drops only the Hessian
 Raised(x, y) == y.k = "D2" /\ y.re = x.re /\ y.vars = x.vars /\ y.d = x.d /\ y.raw2 = ZeroMat(Len(x.vars))
 Bare(c, k, y) == y.k = k /\ y.re = c /\ (k # "F" => y.vars = <<>> /\ y.d = <<>>) /\ (k = "D2" => y.raw2 = <<>>)
+RECURSIVE DedupAcc(_, _)
+DedupAcc(s, acc) == IF s = <<>> THEN acc ELSE DedupAcc(Tail(s), IF Head(s) \in SeqToSet(acc) THEN acc ELSE Append(acc, Head(s)))
+Dedup(s) == DedupAcc(s, <<>>)            \* first occurrence kept, as IndexSet::from_iter does
 Fresh(c, k, vars, y) == /\ y.k = k /\ y.re = c /\ y.vars = vars /\ y.d = Ones(Len(vars))        \* unit sensitivity to exactly the given names
                         /\ (k = "D2" => y.raw2 = ZeroMat(Len(vars)))
 ConvVerdict(op, a, st) ==
@@ -153,8 +160,8 @@ SetOrderVerdict(ins, a, st) ==
   ELSE LET y == st.res o == ins.order IN
   V(/\ Wrapped(y) /\ ShapeOK(y)
     /\ CASE o = 0 -> y.k = "F" /\ y.re = a.re                                   \* lowering to float returns the value
-         [] o = 1 -> (CASE a.k = "F" -> Fresh(a.re, "D1", ins.vars, y) [] a.k = "D1" -> SameStored(a, y) [] a.k = "D2" -> Lowered(a, y))
-         [] o = 2 -> (CASE a.k = "F" -> Fresh(a.re, "D2", ins.vars, y) [] a.k = "D1" -> Raised(a, y) [] a.k = "D2" -> SameStored(a, y)))
+         [] o = 1 -> (CASE a.k = "F" -> Fresh(a.re, "D1", Dedup(ins.vars), y) [] a.k = "D1" -> SameStored(a, y) [] a.k = "D2" -> Lowered(a, y))
+         [] o = 2 -> (CASE a.k = "F" -> Fresh(a.re, "D2", Dedup(ins.vars), y) [] a.k = "D1" -> Raised(a, y) [] a.k = "D2" -> SameStored(a, y)))
 
 \* ------------------------------------------------------------------ variable lists (C03) and read-back (C17)
 \* transcription of Vars::vars_cmp, used only to certify that every relationship class was exercised
@@ -210,14 +217,13 @@ RestrictOK(y, src, other) == /\ y.vars = other.vars /\ y.arc = other.arc
                              /\ \A n \in NamesOf(other) : G(y, n) = G(src, n)
 LeafVerdict(P, i) ==
   LET lf == P.leaves[i] s == lf.spec y == lf.res
-      vars == IF Has(s, "vars") THEN s.vars ELSE <<>>
+      vars == IF Has(s, "vars") THEN Dedup(s.vars) ELSE <<>>          \* repeated names are dropped before anything else
       d == IF Has(s, "d") /\ s.d # <<>> THEN s.d ELSE Ones(Len(vars))
       n == Len(vars)
       h == IF Has(s, "d2half") /\ s.d2half # <<>> THEN s.d2half ELSE ZeroMat(n)
       hcount == IF Has(s, "d2half") THEN LET RECURSIVE Cnt(_) Cnt(k) == IF k > Len(s.d2half) THEN 0 ELSE Len(s.d2half[k]) + Cnt(k + 1) IN Cnt(1) ELSE 0
   IN
-  IF ~NoDup(vars) THEN "skip"
-  ELSE CASE s.t = "F" -> V(lf.o = "ok" /\ y.k = "F" /\ y.re = s.re)
+  CASE s.t = "F" -> V(lf.o = "ok" /\ y.k = "F" /\ y.re = s.re)
     [] s.t = "D1new" -> V(lf.o = "ok" /\ ShapeOK(y) /\ Fresh(s.re, "D1", vars, y))
     [] s.t = "D2new" -> V(lf.o = "ok" /\ ShapeOK(y) /\ Fresh(s.re, "D2", vars, y))
     [] s.t = "D1" -> IF Len(d) # n THEN V(lf.o = "err")                          \* mismatched lengths are reported as errors
@@ -239,6 +245,28 @@ LeafVerdict(P, i) ==
          ELSE IF Len(d) # Len(other.vars) THEN V(lf.o \in {"panic", "err"})
          ELSE V(lf.o = "ok" /\ y.vars = other.vars /\ y.arc = other.arc /\ y.d = d /\ y.re = s.re)
 
+\* ------------------------------------------------------------------ container = contained (C18)
+\* "Arithmetic on the generic number container gives the same result as the same arithmetic on the contained types":
+\* a step whose operands are wrap-copies has a TWIN - the same operation, same operand forms, on the bare registers the
+\* wraps were made from (floats stay bare in both); where the program contains it the two results must be stored
+\* identically, bit for bit (this also covers operands for which a % b's float remainder and a - trunc(a/b)*b differ)
+WrapSrc(P, r) == IF r <= NL(P) THEN r
+                 ELSE LET st == P.steps[r - NL(P)] IN IF st.ins.op = "wrap" /\ st.o = "ok" THEN st.ins.a ELSE r
+TwinOf(P, s) ==
+  LET ins == P.steps[s].ins IN
+  IF ~(Has(ins, "a") /\ Has(ins, "b")) THEN 0
+  ELSE LET ua == WrapSrc(P, ins.a) ub == WrapSrc(P, ins.b)
+           C == {t \in 1..Len(P.steps) : /\ t # s /\ P.steps[t].ins.op = ins.op /\ Has(P.steps[t].ins, "a") /\ Has(P.steps[t].ins, "b")
+                                         /\ P.steps[t].ins.a = ua /\ P.steps[t].ins.b = ub
+                                         /\ (Has(ins, "fa") => Has(P.steps[t].ins, "fa") /\ P.steps[t].ins.fa = ins.fa /\ P.steps[t].ins.fb = ins.fb)}
+       IN IF (ua = ins.a /\ ub = ins.b) \/ C = {} THEN 0 ELSE CHOOSE t \in C : TRUE
+TwinVerdict(P, s) ==
+  LET t == TwinOf(P, s) IN
+  IF t = 0 THEN "skip"
+  ELSE LET x == P.steps[s] y == P.steps[t] IN
+       IF x.o # "ok" \/ y.o # "ok" THEN "skip"
+       ELSE IF IsNum(x.res) /\ IsNum(y.res) THEN V(SameStored(x.res, y.res))
+       ELSE V(x.res = y.res)
 \* ------------------------------------------------------------------ one step
 StepVerdict(P, s) ==
   LET st == P.steps[s] ins == st.ins op == ins.op
